@@ -253,8 +253,8 @@ PROPS["C10"] = {
     "technique": "path-sensitive dirty-flag typestate over clang CFGs plus layout extraction",
 }
 
-PROPS["C12"]["rules"] = PROPS["C12"]["rules"] + [rules_ref.rule_maxref, rules_ref.rule_fresh_cursor]
-PROPS["C12"]["explanation"] += " (MAXREF) filerec_t.maxref, from which Hnewref's fast path hands out `++maxref` without looking at the directory, never decreases: every store is a constructor's 0, an increment guarded by `maxref < MAX_REF`, or `= e` guarded by `e > maxref`. (CURSOR) every whole-directory search (Hnewref's free-ref scan, HTPcreate's free-slot search, Hfind's first search) passes HTIfind_dd a cursor that is NULL on every path, so it cannot resume behind descriptors that are in use."
+PROPS["C12"]["rules"] = PROPS["C12"]["rules"] + [rules_ref.rule_maxref, rules_ref.rule_maxref_registered, rules_ref.rule_fresh_cursor]
+PROPS["C12"]["explanation"] += " (MAXREF) filerec_t.maxref, from which Hnewref's fast path hands out `++maxref` without looking at the directory, never decreases: every store is a constructor's 0, an increment guarded by `maxref < MAX_REF`, or `= e` guarded by `e > maxref`; (MAXREG) HTPcreate, which enters every new tag/ref into the directory, leaves maxref >= that reference on every non-failing path. (CURSOR) every whole-directory search (Hnewref's free-ref scan, HTPcreate's free-slot search, Hfind's first search) passes HTIfind_dd a cursor that is NULL on every path, so it cannot resume behind descriptors that are in use."
 PROPS["C20"]["rules"] = PROPS["C20"]["rules"] + [rules_ref.rule_maxref, rules_bounds.rule_F2_globals, rules_bounds.rule_parallel_arrays, rules_bounds.rule_ref_tables, rules_limits.rule_write_wrap_guard]
 PROPS["C20"]["explanation"] += " (WRAPPOS) Hwrite bounds position + length by INT32_MAX before it dispatches to a special write routine (which add the length unchecked). (REFTABLE) a table indexed by reference number has MAX_REF + 1 entries. (PARALLEL) local arrays that one running counter fills in lock-step have the same dimension. (F2g) a running counter that indexes a fixed-size static table (the token tables of scanattrs) is compared with the table size before every use. (MAXREF) the per-file highest-reference counter never decreases or wraps (see C12)."
 PROPS["C17"]["rules"] = PROPS["C17"]["rules"] + [rules_ref.rule_fresh_cursor]
